@@ -25,8 +25,24 @@ def spill_containers(repo):
                         if isinstance(t, ast.Name):
                             packed_names.add(t.id)
 
+            def is_packed(x):
+                return _is_pack_call(x) or (isinstance(x, ast.Name) and x.id in packed_names)
+
             def is_entry(e):
-                return isinstance(e, ast.Tuple) and len(e.elts) == 2 and (_is_pack_call(e.elts[1]) or (isinstance(e.elts[1], ast.Name) and e.elts[1].id in packed_names))
+                if isinstance(e, ast.Tuple) and len(e.elts) == 2 and is_packed(e.elts[1]):
+                    return True
+                # a record type for the entries (`_Entry(time, self._pack(x))`): a named tuple / dataclass of the repository
+                if isinstance(e, ast.Call) and isinstance(e.func, ast.Name) and len(e.args) + len(e.keywords) == 2 \
+                        and any(is_packed(a) for a in list(e.args) + [k.value for k in e.keywords]):
+                    names = _record_fields(repo, f, e.func.id)
+                    if names is not None:
+                        idx = next(i for i, a in enumerate(list(e.args) + [k.value for k in e.keywords]) if is_packed(a))
+                        kw = [k.arg for k in e.keywords]
+                        payload = names[idx] if idx < len(e.args) else kw[idx - len(e.args)]
+                        PAYLOAD_FIELDS.setdefault(repo, set()).add(payload)
+                        TIME_FIELDS.setdefault(repo, set()).update(n for n in names if n != payload)
+                        return True
+                return False
 
             for n in fn_walk(f.node):
                 if isinstance(n, ast.Assign) and is_entry(n.value):  # entry = (time, self._pack(x))
@@ -38,6 +54,28 @@ def spill_containers(repo):
                     if is_entry(a) or (isinstance(a, ast.Name) and a.id in entry_names):
                         out.setdefault(c.name, {})[self_attr(n.func.value)] = (f, n)
     return out
+
+
+import weakref  # noqa: E402
+
+PAYLOAD_FIELDS = weakref.WeakKeyDictionary()  # repo -> names of the payload field of record-typed buffer entries
+TIME_FIELDS = weakref.WeakKeyDictionary()
+
+
+def _record_fields(repo, f, name):
+    """Field names of a named tuple / dataclass of the repository called `name` in f's module (None if it is none)."""
+    mod = f.module
+    v = mod.consts.get(name)
+    if isinstance(v, ast.Call) and call_name(v) == "namedtuple" and len(v.args) >= 2:
+        a = v.args[1]
+        if isinstance(a, (ast.List, ast.Tuple)) and all(isinstance(x, ast.Constant) and isinstance(x.value, str) for x in a.elts):
+            return [x.value for x in a.elts]
+        if isinstance(a, ast.Constant) and isinstance(a.value, str):
+            return a.value.replace(",", " ").split()
+    ent = repo.lookup(mod, name)
+    if hasattr(ent, "ann_fields") and ent.ann_fields:
+        return [n for n, _d in ent.ann_fields]
+    return None
 
 
 def _is_pack_call(e):
@@ -139,6 +177,15 @@ class _Pack:
             return CONT
         if isinstance(e, ast.Name):
             return env.get(e.id)
+        if isinstance(e, ast.Attribute) and not self_attr(e):
+            b = self.ev(e.value, env, f, depth)
+            if b == ELEM:
+                if e.attr in PAYLOAD_FIELDS.get(self.repo, ()):
+                    self.reads += 1
+                    return PACKED
+                if e.attr in TIME_FIELDS.get(self.repo, ()):
+                    return TIME
+            return None
         if isinstance(e, ast.Subscript):
             b = self.ev(e.value, env, f, depth)
             if b == CONT:
